@@ -31,10 +31,11 @@ def gen_term(rng):
         return [pos, fam, lam, 0.0, x]
     if fam == "gamma":
         a = rng.choice([1.0, 2.0, 3.0, 4.0, 5.0, 0.5, 1.5, 2.5, U(0.5, 5)]); b = U(0.1, 4)
-        x = {"in": U(0.01, 8), "edge": 1e-9, "out": -U(1e-6, 3)}[where]
+        # exactly on the boundary when the density has a finite limit there (shape >= 1): gamma(1, b) at 0 has density b  (S2_C16)
+        x = {"in": U(0.01, 8), "edge": rng.choice([1e-9, 0.0]) if a >= 1 else 1e-9, "out": -U(1e-6, 3)}[where]
         return [pos, fam, a, b, x]
     a = rng.choice([1.0, 2.0, 3.0, 4.0, 0.5, 1.5, 2.5, U(0.5, 5)]); b = rng.choice([1.0, 2.0, 3.0, 0.5, 2.5, U(0.5, 5)])
-    x = {"in": U(0.001, 0.999), "edge": rng.choice([1e-9, 1 - 1e-9]), "out": rng.choice([-U(1e-6, 2), 1 + U(1e-6, 2)])}[where]
+    x = {"in": U(0.001, 0.999), "edge": rng.choice([1e-9, 1 - 1e-9] + ([0.0] if a >= 1 else []) + ([1.0] if b >= 1 else [])), "out": rng.choice([-U(1e-6, 2), 1 + U(1e-6, 2)])}[where]
     return [pos, "beta", a, b, x]
 
 def gen_cases(seed, tier):
@@ -68,7 +69,12 @@ def _logpdf(t):
     if fam == "uniform": return -math.log(b - a) if a <= x <= b else NEG
     if fam == "gaussian": return -math.log(b * math.sqrt(2 * math.pi)) - (x - a) ** 2 / (2 * b * b)
     if fam == "exponential": return math.log(a) - a * x if x >= 0 else NEG
-    if fam == "gamma": return (a * math.log(b) - math.lgamma(a) + (a - 1) * math.log(x) - b * x) if x > 0 else NEG
+    if fam == "gamma":
+        if x == 0: return math.log(b) if a == 1 else NEG          # limit of the density at the boundary (generated only for shape >= 1)
+        return (a * math.log(b) - math.lgamma(a) + (a - 1) * math.log(x) - b * x) if x > 0 else NEG
+    if fam == "beta" and x in (0.0, 1.0):
+        lB = math.lgamma(a) + math.lgamma(b) - math.lgamma(a + b)
+        return -lB if ((x == 0.0 and a == 1) or (x == 1.0 and b == 1)) else NEG
     if fam == "beta":
         return ((a - 1) * math.log(x) + (b - 1) * math.log1p(-x) - (math.lgamma(a) + math.lgamma(b) - math.lgamma(a + b))) if 0 < x < 1 else NEG
     if fam == "log-uniform": return (-math.log(x) - math.log(math.log(b) - math.log(a))) if a <= x <= b else NEG
